@@ -197,12 +197,12 @@ where
 fn first_diff_frag(n: &Node) -> String { crate::checks::c02::frag_signature(&crate::mdesc::MDesc::Wsh(n.clone())) }
 
 #[derive(Clone, Debug)]
-struct Tok {
-    raw: Vec<u8>,
-    ins: Instr,
+pub struct Tok {
+    pub raw: Vec<u8>,
+    pub ins: Instr,
 }
 
-fn tokenize(s: &[u8]) -> Vec<Tok> {
+pub fn tokenize(s: &[u8]) -> Vec<Tok> {
     // re-serialise each instruction minimally to recover its raw bytes
     let ins = parse_script(s).unwrap_or_default();
     let mut out = Vec::new();
@@ -228,7 +228,7 @@ fn tokenize(s: &[u8]) -> Vec<Tok> {
     out
 }
 
-fn mutate(src: &mut Src, toks: &mut Vec<Tok>) -> &'static str {
+pub fn mutate(src: &mut Src, toks: &mut Vec<Tok>) -> &'static str {
     use crate::refscript::op::*;
     if toks.is_empty() {
         return "none";
